@@ -209,12 +209,16 @@ theorem next_target_strictly_later (E : Nat) (polls : List (Option Nat)) (ce' : 
 
 /-! ### eligibility -/
 
+section generic
+variable (win : Nat → Nat → Nat × Nat) (tgt : Nat → Nat)
+
+
 /-- C43 (e): a session in which the relay is not ready or the maintainer is not authorised (or
 either query fails, or the history ends there) makes no header fetch and no submission. -/
 theorem never_when_not_ready_or_unauthorised (dp : Bool) (fuel : Nat)
     (r a : List Ans) (hs es ls : List (Option Nat)) (ss : List Bool) (hf : List Nat)
     (h : r.head? ≠ some .t ∨ a.head? ≠ some .t) :
-    ∀ e ∈ (session dp fuel ⟨r, a, hs, es, ls, ss, hf⟩).1, e.isSubmit = false ∧ e.isFetch = false := by
+    ∀ e ∈ (session win tgt dp fuel ⟨r, a, hs, es, ls, ss, hf⟩).1, e.isSubmit = false ∧ e.isFetch = false := by
   simp only [session, verify]
   rcases r with _ | ⟨x, rs⟩
   · simp
@@ -252,7 +256,7 @@ round reached the window's end, at most once per round.  The theorems below prov
 call list of **every** environment script and fuel. -/
 
 private theorem run_append (dp : Bool) (s : MonState) (a b : List Ev) :
-    run dp s (a ++ b) = run dp (run dp s a) b := by simp [run, List.foldl_append]
+    run win tgt dp s (a ++ b) = run win tgt dp (run win tgt dp s a) b := by simp [run, List.foldl_append]
 
 /-- invariant kept between rounds of an eligible session. -/
 private def Elig (s s' : MonState) : Prop := s'.ok = s.ok ∧ s'.eligible = true
@@ -271,9 +275,9 @@ private theorem waitLoop_ne_idle (E : Nat) (ps : List (Option Nat)) : (waitLoop 
 
 private theorem run_polls (dp : Bool) (E : Nat) (ps : List (Option Nat)) (s : MonState)
     (hk : s.k ≠ 0) (hp : s.pending = some E) :
-    (run dp s ((ps.take (waitLoop E ps).1).map Ev.epoch)).ok = s.ok ∧
-    (run dp s ((ps.take (waitLoop E ps).1).map Ev.epoch)).eligible = s.eligible ∧
-    ((waitLoop E ps).2 = .proven → (run dp s ((ps.take (waitLoop E ps).1).map Ev.epoch)).pending = none) := by
+    (run win tgt dp s ((ps.take (waitLoop E ps).1).map Ev.epoch)).ok = s.ok ∧
+    (run win tgt dp s ((ps.take (waitLoop E ps).1).map Ev.epoch)).eligible = s.eligible ∧
+    ((waitLoop E ps).2 = .proven → (run win tgt dp s ((ps.take (waitLoop E ps).1).map Ev.epoch)).pending = none) := by
   induction ps generalizing s with
   | nil => simp [waitLoop, run]
   | cons p ps ih =>
@@ -283,21 +287,21 @@ private theorem run_polls (dp : Bool) (E : Nat) (ps : List (Option Nat)) (s : Mo
       by_cases hv : v ≥ E
       · simp [waitLoop, hv, run, monStep, hk, hp, clearPending]
       · simp only [waitLoop, hv, if_false, List.take_succ_cons, List.map_cons, run, List.foldl_cons]
-        have hstep : monStep dp s (Ev.epoch (some v)) = { s with k := s.k + 1 } := by
+        have hstep : monStep win tgt dp s (Ev.epoch (some v)) = { s with k := s.k + 1 } := by
           simp [monStep, hk, hp, clearPending, hv]
         rw [hstep]
         exact ih { s with k := s.k + 1 } (by simp) (by simpa using hp)
 
 private theorem run_fetch (dp : Bool) (t : MonState) (first n : Nat) :
-    run dp t (if n = 0 then [] else [Ev.fetch first n]) = t := by
+    run win tgt dp t (if n = 0 then [] else [Ev.fetch first n]) = t := by
   split <;> rfl
 
 private theorem run_prove (dp : Bool) (hf : List Nat) (first last ce h : Nat) (sub : Option Bool)
     (polls : List (Option Nat)) (s : MonState) (h4 : s.k = 1) (h5 : s.eligible = true)
     (hce : s.ce = some ce) (hpn : s.pending = none)
-    (good : h ≥ last → submitGood dp s (!dp) first (headerCount first last) = true) :
-    Elig2 s (run dp s (prove dp hf first last (target ce) h sub polls).1)
-      (prove dp hf first last (target ce) h sub polls).2.1 := by
+    (good : h ≥ last → submitGood win tgt dp s (!dp) first (headerCount first last) = true) :
+    Elig2 s (run win tgt dp s (prove dp hf first last (tgt ce) h sub polls).1)
+      (prove dp hf first last (tgt ce) h sub polls).2.1 := by
   by_cases hm : h ≥ last
   · have good := good hm
     cases hff : firstFail hf first (headerCount first last) with
@@ -306,22 +310,22 @@ private theorem run_prove (dp : Bool) (hf : List Nat) (first last ce h : Nat) (s
       cases sub with
       | none =>
         simp only [prove, hm, hff, if_true]
-        rw [run_fetch]; simp [Elig2, h5]
+        rw [run_fetch win tgt]; simp [Elig2, h5]
       | some b =>
         cases b
         · simp only [prove, hm, hff, if_true]
-          rw [run_append, run_fetch]
+          rw [run_append win tgt, run_fetch win tgt]
           simp [Elig2, run, monStep, good, h5]
         · simp only [prove, hm, hff, if_true]
-          rw [run_append, run_append, run_fetch]
-          have ht : run dp s [Ev.submit (!dp) first (headerCount first last)] =
-              { s with ok := s.ok && submitGood dp s (!dp) first (headerCount first last), h := none,
-                       pending := some (target ce) } := by
+          rw [run_append win tgt, run_append win tgt, run_fetch win tgt]
+          have ht : run win tgt dp s [Ev.submit (!dp) first (headerCount first last)] =
+              { s with ok := s.ok && submitGood win tgt dp s (!dp) first (headerCount first last), h := none,
+                       pending := some (tgt ce) } := by
             simp [run, monStep, hce]
           rw [ht]
-          have hp := run_polls dp (target ce) polls
-            { s with ok := s.ok && submitGood dp s (!dp) first (headerCount first last), h := none,
-                     pending := some (target ce) } (by simp [h4]) rfl
+          have hp := run_polls win tgt dp (tgt ce) polls
+            { s with ok := s.ok && submitGood win tgt dp s (!dp) first (headerCount first last), h := none,
+                     pending := some (tgt ce) } (by simp [h4]) rfl
           refine ⟨by simpa [good] using hp.1, by simpa [h5] using hp.2.1, ?_⟩
           intro ho
           rcases ho with ho | ho
@@ -329,59 +333,77 @@ private theorem run_prove (dp : Bool) (hf : List Nat) (first last ce h : Nat) (s
           · exact absurd ho (waitLoop_ne_idle _ _)
   · simp [prove, hm, run, Elig2, h5, hpn]
 
+/-- `proveNextEpoch` when all three queries are answered. -/
+private theorem proveNext_full (dp : Bool) (r a : List Ans) (hs es ls : List (Option Nat))
+    (ss : List Bool) (hf : List Nat) (h ce L : Nat) :
+    proveNext win tgt dp ⟨r, a, some h :: hs, some ce :: es, some L :: ls, ss, hf⟩ =
+      ([Ev.height (some h), Ev.epoch (some ce), Ev.len (some L)] ++
+          (prove dp hf (win ce L).1 (win ce L).2 (tgt ce) h ss.head? es).1,
+        (prove dp hf (win ce L).1 (win ce L).2 (tgt ce) h ss.head? es).2.1,
+        ⟨r, a, hs, es.drop (prove dp hf (win ce L).1 (win ce L).2 (tgt ce) h ss.head? es).2.2.2, ls,
+          ss.drop (prove dp hf (win ce L).1 (win ce L).2 (tgt ce) h ss.head? es).2.2.1, hf⟩) := rfl
+
 private theorem run_proveNext (dp : Bool) (w : World) (s : MonState) (he : s.eligible = true)
     (hpn : s.pending = none) :
-    Elig2 s (run dp s (proveNext dp w).1) (proveNext dp w).2.1 := by
-  simp only [proveNext]
-  rcases w.heights with _ | ⟨a, hs⟩
-  · simp [run, Elig2, he]
-  · cases a with
-    | none => simp [run, monStep, Elig2, he, hpn]
+    Elig2 s (run win tgt dp s (proveNext win tgt dp w).1) (proveNext win tgt dp w).2.1 := by
+  obtain ⟨r, a, hts, es, ls, ss, hf⟩ := w
+  rcases hts with _ | ⟨x, hs⟩
+  · simp [proveNext, run, Elig2, he]
+  · cases x with
+    | none => simp [proveNext, run, monStep, Elig2, he, hpn]
     | some h =>
-      rcases w.epochs with _ | ⟨b, es⟩
-      · simp [run, monStep, Elig2, he, hpn]
-      · cases b with
-        | none => simp [run, monStep, Elig2, he, hpn]
+      rcases es with _ | ⟨y, es⟩
+      · simp [proveNext, run, monStep, Elig2, he, hpn]
+      · cases y with
+        | none => simp [proveNext, run, monStep, Elig2, he, hpn]
         | some ce =>
-          rcases w.lens with _ | ⟨c, ls⟩
-          · simp [run, monStep, Elig2, he, hpn]
-          · cases c with
-            | none => simp [run, monStep, Elig2, he, hpn]
+          rcases ls with _ | ⟨z, ls⟩
+          · simp [proveNext, run, monStep, Elig2, he, hpn]
+          · cases z with
+            | none => simp [proveNext, run, monStep, Elig2, he, hpn]
             | some L =>
-              simp only []
-              rw [run_append]
-              have := run_prove dp w.hdrFail (window ce L).1 (window ce L).2 ce h
-                w.submits.head? es
-                (run dp s [Ev.height (some h), Ev.epoch (some ce), Ev.len (some L)])
-                (by simp [run, monStep]) (by simp [run, monStep, he]) (by simp [run, monStep])
-                (by simp [run, monStep, hpn])
-                (by intro hm; simp [run, monStep, submitGood, he, hm])
-              obtain ⟨t1, t2, t3⟩ := this
-              refine ⟨?_, t2, t3⟩
-              rw [t1]; simp [run, monStep, hpn]
+              rw [proveNext_full win tgt]
+              have key : ∀ (evs : List Ev) (o : Outcome),
+                  Elig2 (run win tgt dp s [Ev.height (some h), Ev.epoch (some ce), Ev.len (some L)])
+                    (run win tgt dp (run win tgt dp s [Ev.height (some h), Ev.epoch (some ce), Ev.len (some L)]) evs) o →
+                  Elig2 s (run win tgt dp s ([Ev.height (some h), Ev.epoch (some ce), Ev.len (some L)] ++ evs)) o := by
+                intro evs o hE
+                rw [run_append win tgt]
+                obtain ⟨t1, t2, t3⟩ := hE
+                refine ⟨?_, t2, t3⟩
+                rw [t1]; simp [run, monStep, hpn]
+              apply key
+              by_cases hm : h ≥ (win ce L).2
+              · exact run_prove win tgt dp hf (win ce L).1 (win ce L).2 ce h ss.head? es
+                  (run win tgt dp s [Ev.height (some h), Ev.epoch (some ce), Ev.len (some L)])
+                  (by simp [run, monStep]) (by simp [run, monStep, he]) (by simp [run, monStep])
+                  (by simp [run, monStep, hpn])
+                  (fun _ => by simp [run, monStep, submitGood, he, hm])
+              · rw [not_mined_idle dp hf _ _ _ h _ _ (Nat.not_le.mp hm)]
+                simp [run, monStep, Elig2, he, hpn]
 
 private theorem run_proveLoop (dp : Bool) (fuel : Nat) (w : World) (s : MonState)
     (he : s.eligible = true) (hpn : s.pending = none) :
-    Elig s (run dp s (proveLoop dp fuel w).1) := by
+    Elig s (run win tgt dp s (proveLoop win tgt dp fuel w).1) := by
   induction fuel generalizing w s with
   | zero => simp [proveLoop, run, Elig, he]
   | succ n ih =>
     simp only [proveLoop]
-    have h1 := run_proveNext dp w s he hpn
-    cases ho : (proveNext dp w).2.1
+    have h1 := run_proveNext win tgt dp w s he hpn
+    cases ho : (proveNext win tgt dp w).2.1
     · rw [ho] at h1
-      simp only []; rw [run_append]
-      have h2 := ih (proveNext dp w).2.2 (run dp s (proveNext dp w).1) h1.2.1 (h1.2.2 (Or.inl rfl))
+      simp only []; rw [run_append win tgt]
+      have h2 := ih (proveNext win tgt dp w).2.2 (run win tgt dp s (proveNext win tgt dp w).1) h1.2.1 (h1.2.2 (Or.inl rfl))
       exact ⟨h2.1.trans h1.1, h2.2⟩
     · rw [ho] at h1
-      simp only []; rw [run_append]
-      have h2 := ih (proveNext dp w).2.2 (run dp s (proveNext dp w).1) h1.2.1 (h1.2.2 (Or.inr rfl))
+      simp only []; rw [run_append win tgt]
+      have h2 := ih (proveNext win tgt dp w).2.2 (run win tgt dp s (proveNext win tgt dp w).1) h1.2.1 (h1.2.2 (Or.inr rfl))
       exact ⟨h2.1.trans h1.1, h2.2⟩
     · exact ⟨h1.1, h1.2.1⟩
     · exact ⟨h1.1, h1.2.1⟩
 
 private theorem run_session (dp : Bool) (fuel : Nat) (w : World) (s : MonState) :
-    (run dp s (session dp fuel w).1).ok = s.ok := by
+    (run win tgt dp s (session win tgt dp fuel w).1).ok = s.ok := by
   obtain ⟨r, a, hs, es, ls, ss, hf⟩ := w
   simp only [session, verify]
   rcases r with _ | ⟨x, rs⟩
@@ -391,13 +413,13 @@ private theorem run_session (dp : Bool) (fuel : Nat) (w : World) (s : MonState) 
       · simp [run, monStep]
       · cases y
         · simp only []
-          rw [run_append]
-          have h0 : (run dp s [Ev.ready Ans.t, authEv dp Ans.t]).eligible = true ∧
-              (run dp s [Ev.ready Ans.t, authEv dp Ans.t]).ok = s.ok ∧
-              (run dp s [Ev.ready Ans.t, authEv dp Ans.t]).pending = none := by
+          rw [run_append win tgt]
+          have h0 : (run win tgt dp s [Ev.ready Ans.t, authEv dp Ans.t]).eligible = true ∧
+              (run win tgt dp s [Ev.ready Ans.t, authEv dp Ans.t]).ok = s.ok ∧
+              (run win tgt dp s [Ev.ready Ans.t, authEv dp Ans.t]).pending = none := by
             cases dp <;> simp [run, monStep, authEv]
-          have := run_proveLoop dp fuel ⟨rs, as, hs, es, ls, ss, hf⟩
-            (run dp s [Ev.ready Ans.t, authEv dp Ans.t]) h0.1 h0.2.2
+          have := run_proveLoop win tgt dp fuel ⟨rs, as, hs, es, ls, ss, hf⟩
+            (run win tgt dp s [Ev.ready Ans.t, authEv dp Ans.t]) h0.1 h0.2.2
           rw [this.1, h0.2.1]
         · cases dp <;> simp [run, monStep, authEv]
         · cases dp <;> simp [run, monStep, authEv]
@@ -405,51 +427,58 @@ private theorem run_session (dp : Bool) (fuel : Nat) (w : World) (s : MonState) 
     · simp [run, monStep]
 
 private theorem run_controlLoop (dp : Bool) (fuel k : Nat) (w : World) (s : MonState) :
-    (run dp s (controlLoop dp fuel k w)).ok = s.ok := by
+    (run win tgt dp s (controlLoop win tgt dp fuel k w)).ok = s.ok := by
   induction k generalizing w s with
   | zero => simp [controlLoop, run]
   | succ n ih =>
     simp only [controlLoop]
     split
-    · exact run_session dp fuel w s
+    · exact run_session win tgt dp fuel w s
     · rw [run_append, ih, run_session]
 
 /-- History theorem + soundness link for `proveEpochs`: the monitor accepts the model's call
 list for every environment script. -/
-theorem holds_session (dp : Bool) (fuel : Nat) (w : World) : holds dp (session dp fuel w).1 = true := by
-  simp only [holds]; rw [run_session]
+theorem holds_session (dp : Bool) (fuel : Nat) (w : World) : holds win tgt dp (session win tgt dp fuel w).1 = true := by
+  simp only [holds]; rw [run_session win tgt]
 
 /-- …and for `startControlLoop` (any number of restarts). -/
 theorem holds_model (dp : Bool) (fuel k : Nat) (w : World) :
-    holds dp (controlLoop dp fuel k w) = true := by
-  simp only [holds]; rw [run_controlLoop]
+    holds win tgt dp (controlLoop win tgt dp fuel k w) = true := by
+  simp only [holds]; rw [run_controlLoop win tgt]
+
+end generic
+
+/-- the history theorem for the real window arithmetic of the code. -/
+theorem holds_model_real (dp : Bool) (fuel k : Nat) (w : World) :
+    holds window target dp (controlLoop window target dp fuel k w) = true :=
+  holds_model window target dp fuel k w
 
 /-! ### the monitor is not vacuous -/
 
 -- a correct round (relay at epoch 1, L = 3, chain at 4034): accepted
-example : holds false [.ready .t, .authRefund .t, .height (some 4034), .epoch (some 1), .len (some 3),
+example : holds window target false [.ready .t, .authRefund .t, .height (some 4034), .epoch (some 1), .len (some 3),
     .fetch 4029 6, .submit true 4029 6, .epoch (some 2)] = true := by decide
 -- submitted one block too early (`>` for `>=` would wait, `>= last-1` submits early)
-example : holds false [.ready .t, .authRefund .t, .height (some 4033), .epoch (some 1), .len (some 3),
+example : holds window target false [.ready .t, .authRefund .t, .height (some 4033), .epoch (some 1), .len (some 3),
     .fetch 4029 6, .submit true 4029 6] = false := by decide
 -- asymmetric window
-example : holds false [.ready .t, .authRefund .t, .height (some 4034), .epoch (some 1), .len (some 3),
+example : holds window target false [.ready .t, .authRefund .t, .height (some 4034), .epoch (some 1), .len (some 3),
     .fetch 4029 5, .submit true 4029 5] = false := by decide
 -- current epoch instead of the next one
-example : holds false [.ready .t, .authRefund .t, .height (some 4034), .epoch (some 1), .len (some 3),
+example : holds window target false [.ready .t, .authRefund .t, .height (some 4034), .epoch (some 1), .len (some 3),
     .fetch 2013 6, .submit true 2013 6] = false := by decide
 -- not authorised
-example : holds false [.ready .t, .authRefund .f, .height (some 4034), .epoch (some 1), .len (some 3),
+example : holds window target false [.ready .t, .authRefund .f, .height (some 4034), .epoch (some 1), .len (some 3),
     .fetch 4029 6, .submit true 4029 6] = false := by decide
 -- twice in one round
-example : holds false [.ready .t, .authRefund .t, .height (some 4034), .epoch (some 1), .len (some 3),
+example : holds window target false [.ready .t, .authRefund .t, .height (some 4034), .epoch (some 1), .len (some 3),
     .submit true 4029 6, .submit true 4029 6] = false := by decide
 -- moving on after a poll below the submitted epoch, then submitting the same epoch again
-example : holds false [.ready .t, .authRefund .t, .height (some 4034), .epoch (some 1), .len (some 3),
+example : holds window target false [.ready .t, .authRefund .t, .height (some 4034), .epoch (some 1), .len (some 3),
     .fetch 4029 6, .submit true 4029 6, .epoch (some 1), .height (some 4034), .epoch (some 1), .len (some 3),
     .fetch 4029 6, .submit true 4029 6] = false := by decide
 -- the model itself on a two-epoch history
-example : (controlLoop false 5 3 ⟨[.t], [.t], [some 4034, some 6050], [some 1, some 2, some 2, some 3],
+example : (controlLoop window target false 5 3 ⟨[.t], [.t], [some 4034, some 6050], [some 1, some 2, some 2, some 3],
     [some 3, some 3], [true, true], []⟩).filter Ev.isSubmit = [.submit true 4029 6, .submit true 6045 6] := by
   decide
 
